@@ -765,6 +765,8 @@ def lits_of(tl):
 def run_batch(ctx, res, journal, pool0, cases, tag):
     """cases: list of Case with .text and .sxs set.  One REPL session evaluates, one prints the parsed
     text, a third evaluates the printed text."""
+    import time
+    t0 = time.time()
     evals = ["eval 'verif_rational(%s)'" % c.text for c in cases]
     parses = ["parse ' %s'" % c.text for c in cases]
     out_v = [canon_val(b) for b in lib.run_repl(journal, evals)]
@@ -784,7 +786,10 @@ def run_batch(ctx, res, journal, pool0, cases, tag):
                 pool[s] = max(pool.get(s, 0), sx[3])
         lines.append(lib.sx(['case', '%s%d' % (tag, i), c03.pool_sx(pool),
                              ['pool0'] + c03.pool_sx(pool0)[1:], ['toks'] + c.sxs]))
+    t1 = time.time()
     mo = lib.run_model('C15', lines)
+    res.extra['t_impl'] = res.extra.get('t_impl', 0) + round(t1 - t0, 2)
+    res.extra['t_model'] = res.extra.get('t_model', 0) + round(time.time() - t1, 2)
     model = {}
     for l in mo:
         parts = l.split(' ', 2)
@@ -966,7 +971,7 @@ def run(ctx, n_override=None):
         cases = [mk_case(rng, 'small', t, extra=0.0, tight=0.3) for t in small[k:k + batch]]
         process(ctx, res, run_batch(ctx, res, journal, pool0, cases, 's%d_' % k), 'small')
     # --- 2. random deep trees
-    nrand = ctx.scale(2200, 30000) * scale
+    nrand = ctx.scale(4000, 30000) * scale
     done = 0
     bi = 0
     while done < nrand:
